@@ -25,6 +25,7 @@ import math
 from .. import facts as F
 from .. import specs as S
 from ..harness import *
+from ..absint import new_cell, Arr
 
 LEVEL = "other"
 
@@ -363,9 +364,93 @@ def generated(chk, rule="C04.Q"):
                 chk.add(rule, key, v, d, where=where_of(K.method("%s_canonization" % which)))
 
 
+def step_kernels(chk, rule="C04.S"):
+    """C04.S: the walks are analysed in full only for small n.  For n = 7, 8 (9, 10 thorough) their steps are checked
+    separately: every local function the walk bodies call with (num_vars, &mut [u64], index) - the step kernels - is
+    run on a symbolic table for every valid index and must be the group generator it is for small n (adjacent
+    transposition of the variables i, i+1, or complement of the variable i).  Together with C04.Q (the sequences are
+    closed covering cycles) this is what the orbit argument needs at the sizes where the walk itself is not run."""
+    from .. import specs as S_
+    facts = F.load("dbg")
+    env = Env(facts)
+
+    def is_tab(ty):
+        return ty["k"] == "ref" and ty["mut"] and ty["t"]["k"] == "slice" and ty["t"]["t"].get("w") == 64
+
+    def is_seq(ty):
+        return ty["k"] == "ref" and not ty["mut"] and ty["t"]["k"] == "slice" and ty["t"]["t"].get("w") == 8
+    walks = [b for b in facts.lib_bodies() if b.get("sig") and any(is_tab(t_) for t_ in b["sig"]["inputs"]) and any(is_seq(t_) for t_ in b["sig"]["inputs"])]
+    kernels = {}
+    for wb in walks:
+        for blk in wb["mir"]["blocks"]:
+            t = blk["term"]
+            if t["k"] != "call":
+                continue
+            key = ((t.get("func") or {}).get("resolved") or {}).get("key") or (t.get("func") or {}).get("key")
+            cb = facts.body(key) if key else None
+            if cb is None or not cb.get("sig"):
+                continue
+            ins = cb["sig"]["inputs"]
+            if len(ins) == 3 and ins[0]["k"] == "uint" and is_tab(ins[1]) and ins[2]["k"] == "uint" and cb["sig"]["output"]["s"] == "()":
+                kernels[cb["key"]] = cb
+    chk.floor(rule + " step kernels called by the walks", len(kernels), 2)
+
+    def run_kernel(cb, n, i):
+        it = env.interp()
+        st = State()
+        cell = new_cell()
+        words = sym_words(n, "a")
+        st.mem[cell] = Arr(words)
+        outs = it.call_body(cb, [usize(n), Ptr(cell, (), (0, len(words))), usize(i)], st, {})
+        o, v, d = single_return(outs)
+        if o is None:
+            return None, v, d
+        return bits_of_table(list(it.slice_elems(o.state, Ptr(cell, (), (0, len(words))))), n), o.pc, ""
+    roles = {"swap_adjacent": lambda n, i: S_.swap(n, i, i + 1) if i + 1 < n else None, "flip": lambda n, i: S_.flip(n, i)}
+    for key_, cb in sorted(kernels.items()):
+        # role at a small size (where the whole walk is analysed): the generator it agrees with on every index
+        role = None
+        try:
+            for rname, spec in roles.items():
+                ok = True
+                for i in range(4):
+                    exp = spec(4, i)
+                    if exp is None:
+                        continue
+                    bits, pc, _ = run_kernel(cb, 4, i)
+                    if bits is None or compare_bits(bits, exp, pc)[0] != PROVED:
+                        ok = False
+                        break
+                if ok:
+                    role = rname
+                    break
+        except Undecided:
+            role = None
+        if role is None:
+            chk.undecided(rule, "role of step kernel %s" % cb["path"], "neither adjacent transposition nor complement of a variable at n = 4")
+            continue
+        for n in ((7, 8) if chk.tier == "quick" else (7, 8, 9, 10)):
+            for i in range(n):
+                exp = roles[role](n, i)
+                if exp is None:
+                    continue
+                key = "%s is the %s generator n=%d i=%d" % (cb["path"], role, n, i)
+                try:
+                    bits, pc, d = run_kernel(cb, n, i)
+                    if bits is None:
+                        v = pc
+                    else:
+                        v, d = compare_bits(bits, exp, pc)
+                        d = d and "the step the walk applies is not the %s of variable %d: %s" % ("transposition with its neighbour" if role == "swap_adjacent" else "complement", i, d)
+                except Undecided as e:
+                    v, d = UNDECIDED, e.cause
+                chk.add(rule, key, v, d, where=where_of(cb))
+
+
 def run(chk):
     analyse(chk, "C04")
     generated(chk)
+    step_kernels(chk)
     # C04.T: constant sequences are closed cycles (table predicates, E5)
     facts = F.load("dbg")
     tables(chk, facts)
